@@ -25,6 +25,9 @@ type Trace11 struct {
 	Scale   int      `json:"scale,omitempty"`
 	Rot     int      `json:"rot,omitempty"`   // quarter turns
 	Quiet   int      `json:"quiet,omitempty"` // quiet zone in modules
+	// MinCheck: least number of check words the sender accepts (0 = the
+	// recommended three); 1 or 2 gives symbols filled to the brim
+	MinCheck int `json:"mincheck,omitempty"`
 	// Prime, if set, is a symbol decoded FIRST on the same Decoder / AztecReader
 	// instance (instance-reuse history); the oracle applies to both.
 	Prime *Trace11 `json:"prime,omitempty"`
@@ -54,7 +57,11 @@ func bytesOf(b []int) []byte {
 func build11(tr *Trace11, probe func(string)) *az.Symbol {
 	bits := az.HighLevel(bytesOf(tr.Text), rngChooser{kit.NewRNG(tr.EncSeed)}, az.Probe(probe))
 	words := az.Stuff(bits, az.WordSize(tr.Layers), az.Probe(probe))
-	return az.Build(words, tr.Layers, tr.Compact)
+	mc := tr.MinCheck
+	if mc == 0 {
+		mc = 3
+	}
+	return az.BuildMin(words, tr.Layers, tr.Compact, mc)
 }
 
 func damage11(s *az.Symbol, faults [][2]int, probe func(string)) (m [][]bool, within bool, n int) {
@@ -299,6 +306,9 @@ func genAztecText(r *kit.RNG, n int) []int {
 			if r.Chance(1, 4) {
 				cnt = r.Range(32, 70) // forces the long binary-shift form
 			}
+			if r.Chance(1, 10) {
+				cnt = r.Range(250, 1100) // one long-form shift of several hundred bytes (large symbols only)
+			}
 			for i := 0; i < cnt; i++ {
 				out = append(out, 128+r.Intn(128))
 			}
@@ -316,7 +326,15 @@ func genAztecText(r *kit.RNG, n int) []int {
 
 // fit11 finds a text for the size whose encoding fills it as asked.
 func fit11(r *kit.RNG, layers int, compact bool, fill int) (*Trace11, *az.Symbol) {
+	minCheck := 0
+	if fill == 3 {
+		minCheck = r.Range(1, 2) // filled to the brim: one or two check words left
+		fill = 2
+	}
 	cap := az.Capacity(layers, compact) - 3
+	if minCheck > 0 {
+		cap = az.Capacity(layers, compact) - minCheck
+	}
 	if compact && cap > 64 {
 		cap = 64
 	}
@@ -334,7 +352,7 @@ func fit11(r *kit.RNG, layers int, compact bool, fill int) (*Trace11, *az.Symbol
 	full := genAztecText(r, target)
 	seed := r.Uint64() >> 11
 	try := func(n int) (*Trace11, *az.Symbol) {
-		tr := &Trace11{Compact: compact, Layers: layers, Text: full[:n], EncSeed: seed}
+		tr := &Trace11{Compact: compact, Layers: layers, Text: full[:n], EncSeed: seed, MinCheck: minCheck}
 		return tr, build11(tr, func(string) {})
 	}
 	lo, hi := 1, len(full) // largest prefix that fits
@@ -500,7 +518,7 @@ func C11() *kit.Spec {
 			r := c.RNG
 			watchCtx = c
 			probe := func(p string) { c.Count(p, 1) }
-			tr, s := fit11(r, j.size.layers, j.size.compact, r.Intn(3))
+			tr, s := fit11(r, j.size.layers, j.size.compact, []int{0, 1, 2, 0, 1, 2, 3}[r.Intn(7)])
 			if s == nil {
 				c.Fatal(fmt.Sprintf("reference sender cannot fill size compact=%v layers=%d", j.size.compact, j.size.layers))
 				return
